@@ -20,6 +20,8 @@ type Mutant struct {
 	File     string   // repo-relative
 	Find     string   // must occur exactly once, otherwise the mutant is skipped
 	Replace  string
+	Find2    string // optional second edit in the same file (a cooperating site, e.g. a declaration the first edit needs)
+	Replace2 string
 	Expect   string // substring of the violated construct
 	Describe string
 }
@@ -36,6 +38,12 @@ var Mutants = []Mutant{
 	{ID: "shortcircuit-or-false", Props: []string{"C01"}, Rule: "R-EVALORDER", File: "pkg/evaluator/evaluator.go", Find: "return l.V // short-circuit OR when left is true", Replace: "return false", Expect: "canShortCircuit#OP_OR", Describe: "or never short-circuits"},
 	{ID: "dispatch-string-minus", Props: []string{"C01"}, Rule: "R-DISPATCH", File: "pkg/parser/expression.go", Find: "\tcase OP_MINUS, OP_SLASH, OP_PERCENT:\n\t\tif leftType != NUM_TYPE {", Replace: "\tcase OP_MINUS, OP_SLASH, OP_PERCENT:\n\t\tif leftType != NUM_TYPE && leftType != STRING_TYPE {", Expect: "admits:string", Describe: "parser lets - / % through for strings"},
 	{ID: "maplit-go-order", Props: []string{"C01", "C08"}, Rule: "R-MAPRANGE", File: "pkg/evaluator/evaluator.go", Find: "\tfor _, key := range m.Order {\n\t\tval, err := e.eval(m.Pairs[key])", Replace: "\tfor key, node := range m.Pairs {\n\t\tval, err := e.eval(node)", Expect: "evalMapLiteral#maprange", Describe: "map literal values evaluated in Go map order"},
+	{ID: "opsem-eval-minus-swapped", Props: []string{"C01"}, Rule: "R-OPSEM", File: "pkg/evaluator/evaluator.go", Find: "return &numVal{V: left.V - right.V}, nil", Replace: "return &numVal{V: right.V - left.V}, nil", Expect: "evalBinaryNumExpr#case:-", Describe: "subtraction with swapped operands"},
+	{ID: "opsem-eval-string-lteq", Props: []string{"C01"}, Rule: "R-OPSEM", File: "pkg/evaluator/evaluator.go", Find: "return &boolVal{left.V <= right.V}, nil", Replace: "return &boolVal{left.V < right.V}, nil", Expect: "evalBinaryStringExpr#case:<=", Describe: "string <= computed as <"},
+	{ID: "opsem-eval-noteq", Props: []string{"C01"}, Rule: "R-OPSEM", File: "pkg/evaluator/evaluator.go", Find: "return &boolVal{V: !left.Equals(right)}, nil", Replace: "return &boolVal{V: !right.Equals(right)}, nil", Expect: "evalBinaryExpr#case:!=", Describe: "!= compares the right operand with itself"},
+	{ID: "opsem-vm-popstrings-order", Props: []string{"C16"}, Rule: "R-OPSEM", File: "pkg/bytecode/vm.go", Find: "\tright := vm.popStringVal()\n\tleft := vm.popStringVal()\n\treturn string(right), string(left)", Replace: "\tleft := vm.popStringVal()\n\tright := vm.popStringVal()\n\treturn string(right), string(left)", Expect: "compileStringBinaryExpression#case:+", Describe: "popBinaryStrings pops left first: concatenation and comparisons of strings are mirrored on the VM"},
+	{ID: "opsem-compiler-lteq-table", Props: []string{"C16"}, Rule: "R-OPSEM", File: "pkg/bytecode/compiler.go", Find: "\tcase parser.OP_LTEQ:\n\t\treturn c.emit(OpNumLessThanEqual)", Replace: "\tcase parser.OP_LTEQ:\n\t\treturn c.emit(OpNumLessThan)", Expect: "compileNumBinaryExpression#case:<=", Describe: "<= on nums translated to the < opcode"},
+	{ID: "opsem-vm-modulo-operands", Props: []string{"C16"}, Rule: "R-OPSEM", File: "pkg/bytecode/vm.go", Find: "err = vm.push(numVal(math.Mod(left, right)))", Replace: "err = vm.push(numVal(math.Mod(right, left)))", Expect: "case:%", Describe: "VM modulo with swapped operands"},
 	// C02 / C13
 	{ID: "normalizeIndex-no-roundtrip", Props: []string{"C02"}, Rule: "R-F2I/pkg/evaluator", File: "pkg/evaluator/value.go", Find: "\tif index.V != float64(i) {\n\t\treturn 0, fmt.Errorf(\"%w: %v\", ErrIndexValue, index.V)\n\t}\n", Replace: "", Expect: "normalizeIndex#f2i", Describe: "round-trip test dropped"},
 	{ID: "builtin-assert-mismatch", Props: []string{"C02", "C13"}, Rule: "R-BUILTINSIG", File: "pkg/evaluator/builtin.go", Find: "\tsep := args[1].(*stringVal)\n\ts := join(*arr.Elements, sep.V)", Replace: "\tsep := args[1].(*anyVal).V.(*stringVal)\n\ts := join(*arr.Elements, sep.V)", Expect: "builtin:join", Describe: "join asserts its separator to be an any"},
@@ -74,6 +82,8 @@ var Mutants = []Mutant{
 		Find:    "\t\tp.validateVarDecl(param, param.token, true /* allowUnderscore */)\n\t\texptectedType := expectedParams[i].Type()",
 		Replace: "\t\texptectedType := expectedParams[i].Type()",
 		Expect:  "addEventParamsToScope#set-validated", Describe: "handler parameters are not validated"},
+	{ID: "accepts-any-fast-path-nil", Props: []string{"C03"}, Rule: "R-NILRET", File: "pkg/parser/type.go", Find: "func (t *Type) accepts(t2 *Type) bool {\n\tleft, right := t, t2\n", Replace: "func (t *Type) accepts(t2 *Type) bool {\n\tif t == ANY_TYPE {\n\t\treturn t2.Name != NONE\n\t}\n\tleft, right := t, t2\n", Expect: "parseReturnStatement#use-of-field", Describe: "accepts dereferences the nil type of a return statement whose value failed to parse"},
+	{ID: "rune-cache-extended", Props: []string{"C11"}, Rule: "R-RUNES/pkg/evaluator", File: "pkg/evaluator/evaluator.go", Find: "\t\treturn &stringVal{V: left.V + right.V}, nil", Replace: "\t\tresult := &stringVal{V: left.V + right.V}\n\t\tif left.runeSlice != nil {\n\t\t\tresult.runeSlice = append(left.runeSlice, right.runes()...)\n\t\t}\n\t\treturn result, nil", Expect: "#rune-cache", Describe: "concatenation extends the left operand's cached rune view: two results share a backing array"},
 	// C05 / C06
 	{ID: "break-no-eol", Props: []string{"C05", "C06"}, Rule: "R-EOLSTATE", File: "pkg/parser/parser.go", Find: "\tp.advance() // advance past BREAK token\n\tp.assertEOL()\n", Replace: "\tp.advance() // advance past BREAK token\n", Expect: "parseBreakStatement#skip", Describe: "text after break is skipped"},
 	{ID: "if-end-no-eol", Props: []string{"C05", "C06"}, Rule: "R-EOLSTATE", File: "pkg/parser/parser.go", Find: "\tp.assertEnd()\n\tp.advance()\n\tp.assertEOL()\n\tp.recordComment(ifStmt)", Replace: "\tp.assertEnd()\n\tp.advance()\n\tp.recordComment(ifStmt)", Expect: "parseIfStatement#skip", Describe: "text after the end of an if is skipped"},
@@ -89,7 +99,11 @@ var Mutants = []Mutant{
 	// C07
 	{ID: "indent-unbalanced", Props: []string{"C07"}, Rule: "R-INDENTPAIR", File: "pkg/parser/format.go", Find: "\t\tf.writeLn()\n\t}\n\n\tf.indentLevel--\n}", Replace: "\t\tf.writeLn()\n\t}\n}", Expect: "writeStmts#indent-balance", Describe: "writeStmts forgets to decrease the indentation"},
 	{ID: "comment-trimright", Props: []string{"C07"}, Rule: "R-INDENTPAIR", File: "pkg/parser/format.go", Find: "f.write(strings.TrimSpace(c))", Replace: "f.write(strings.TrimRight(c, \" \"))", Expect: "writeComment#trimmed", Describe: "comments keep trailing tabs"},
+	{ID: "steprange-cached-per-statement", Props: []string{"C10"}, Rule: "R-FRESH", File: "pkg/evaluator/evaluator.go", Find: "\tsRange := &stepRange{\n\t\tcur:  start,\n\t\tstop: stop,\n\t\tstep: step,\n\t}\n", Replace: "\tsRange := stepRangeCache[r]\n\tif sRange == nil {\n\t\tsRange = &stepRange{}\n\t\tstepRangeCache[r] = sRange\n\t}\n\tsRange.cur, sRange.stop, sRange.step = start, stop, step\n",
+		Find2: "func (e *Evaluator) newStepRange(", Replace2: "var stepRangeCache = map[*parser.StepRange]*stepRange{}\n\nfunc (e *Evaluator) newStepRange(",
+		Expect: "newStepRange#ranger-fresh", Describe: "one cached stepRange per for statement: recursion through the loop shares the state"},
 	// C08
+	{ID: "printf-composite-as-pointer", Props: []string{"C08"}, Rule: "R-ADDRPRINT", File: "pkg/evaluator/value.go", Find: "\t\treturn unwrapBasicvalue(v.V)\n\tdefault:\n\t\treturn v.String()\n\t}\n", Replace: "\t\treturn unwrapBasicvalue(v.V)\n\t}\n\treturn val\n", Expect: "sprintf#fmt-dynamic-args", Describe: "printf \"%d\" [1 2] prints a heap address"},
 	{ID: "mapstring-go-order", Props: []string{"C08", "C12"}, Rule: "R-MAPRANGE", File: "pkg/evaluator/value.go", Find: "func (m *mapVal) String() string {\n\tpairs := make([]string, 0, len(m.Pairs))\n\tfor _, key := range *m.Order {\n\t\tpairs = append(pairs, key+\":\"+m.Pairs[key].String())", Replace: "func (m *mapVal) String() string {\n\tpairs := make([]string, 0, len(m.Pairs))\n\tfor key, v := range m.Pairs {\n\t\tpairs = append(pairs, key+\":\"+v.String())", Expect: "(*mapVal).String#maprange", Describe: "maps print in Go map order"},
 	{ID: "rand-reseed", Props: []string{"C08"}, Rule: "R-TIMESOURCE", File: "pkg/evaluator/builtin.go", Find: "func rand1Func(_ *scope, _ []value) (value, error) {\n", Replace: "func rand1Func(_ *scope, _ []value) (value, error) {\n\t_ = time.Now()\n", Expect: "rand1Func→time.Now", Describe: "rand1 reads the clock"},
 	{ID: "error-prints-scope-address", Props: []string{"C08"}, Rule: "R-ADDRPRINT", File: "pkg/evaluator/evaluator.go", Find: "fmt.Errorf(\"%w: step cannot be 0, infinite loop\", ErrRangevalue)", Replace: "fmt.Errorf(\"%w: step cannot be 0, infinite loop in %v\", ErrRangevalue, e.scope)", Expect: "#fmt[", Describe: "a panic text contains the address of the enclosing scope"},
@@ -263,6 +277,13 @@ func RunMutants(c *Ctx, prop string) []MutantResult {
 				return
 			}
 			mutated := strings.Replace(string(src), m.Find, m.Replace, 1)
+			if m.Find2 != "" {
+				if strings.Count(mutated, m.Find2) != 1 {
+					res.Status, res.Detail = "skipped", "second anchor does not occur exactly once in "+m.File
+					return
+				}
+				mutated = strings.Replace(mutated, m.Find2, m.Replace2, 1)
+			}
 			if err := os.WriteFile(filepath.Join(dir, m.File), []byte(mutated), 0o644); err != nil {
 				res.Status, res.Detail = "broken", err.Error()
 				return
